@@ -257,7 +257,7 @@ Definition res_msg_eqb : result msg -> result msg -> bool := result_eqb msg_eqb.
 
 (** the measured allocation (runtime.MemStats.TotalAlloc delta) against the meter: size-class rounding,
     append's amortised growth, error values and bufio's own line buffer stay within this envelope *)
-Definition alloc_envelope (meter : N) (consumed : N) : N := 3 * meter + 8 * consumed + 4096.
+Definition alloc_envelope (meter : N) (consumed : N) : N := 3 * meter + 8 * consumed + 16384.
 
 Inductive case :=
 (* readNextMessage on [input] through a bufio.Reader of size B gave [impl], consumed [consumed] bytes and
